@@ -160,6 +160,14 @@ where
 
     /// Starts decoding of a CALL or a SYSCALL block.
     pub(super) fn start_call_block(&mut self, block: &Call) -> Result<(), ExecutionError> {
+        // a new execution context cannot be created while a SYSCALL is being executed (statically
+        // the assembler rules this out for kernel modules, but a dynamically invoked block may
+        // still contain a CALL or a SYSCALL)
+        if self.system.in_syscall() {
+            let instruction = if block.is_syscall() { "syscall" } else { "call" };
+            return Err(ExecutionError::CallInSyscall(instruction));
+        }
+
         // use the hasher to compute the hash of the CALL or SYSCALL block; the row address
         // returned by the hasher is used as the ID of the block; the result of the hash is
         // expected to be in row addr + 7.
